@@ -6,7 +6,7 @@ The deductive part (every rule regex is compiled case-insensitively) lives in co
 class BoundedPreprocessUnit:
     kind = "bounded"
     name = "ctparse._preprocess_string[bounded]"
-    props = {"C11"}
+    props = {"C11", "C10"}
     cost = 10
 
     def sha(self, world):
@@ -21,7 +21,7 @@ class BoundedPreprocessUnit:
         env = dict(os.environ, PYTHONPATH=world.repo + os.pathsep + W.VERIF, PYTHONDONTWRITEBYTECODE="1")
         p = subprocess.run([W.VENV_PY, "-W", "ignore", os.path.join(W.VERIF, "replay", "bounded_c11.py"), tier],
                            cwd=world.repo, env=env, capture_output=True, text=True, timeout=3000)
-        o = Obligation(self.name, "normalisation-as-stated-on-all-code-points-and-short-strings", ["C11"])
+        o = Obligation(self.name, "normalisation-as-stated-on-all-code-points-and-short-strings", ["C11", "C10"])
         o.kind = "bounded"
         o.bounded = True
         o.paths = 1
@@ -32,7 +32,7 @@ class BoundedPreprocessUnit:
             o.status, o.detail = "unsupported", "bounded check crashed: " + (p.stderr or p.stdout)[-800:]
             return [o], info
         info["bounded"] = [{"what": self.name, "bound": r["bound"], "cases": r["cases"], "distinct": r["distinct"],
-                            "failures": len(r["bad"]), "unicode_version_skew_code_points": r["n_skew"], "props": ["C11"]}]
+                            "failures": len(r["bad"]), "unicode_version_skew_code_points": r["n_skew"], "props": ["C11", "C10"]}]
         if r["bad"]:
             o.status = "failed"
             o.detail = "normalisation differs from the statement: %s" % json.dumps(r["bad"][0])[:500]
